@@ -40,7 +40,8 @@ TStep ==
           xv(a, i) == IF S.s16 = 0 THEN 0 ELSE IF a = 1 THEN e.draws[n + i] ELSE e.draws[i]
           xw(i) == IF S.sz16 = 0 THEN 0 ELSE e.draws[nh + i]
           want(a, i) == MoveH(G, P(e.pre, i), DispX(e, i, xu(a, i)), DispY(e, i, xv(a, i)))
-          hfit(a) == \A i \in 1..n : LET w == want(a, i) IN
+          \* a particle that is already dead is not observable any more: it only has to stay dead (where it is kept is free)
+          hfit(a) == \A i \in 1..n : IF ~e.pre.alive[i] THEN ~e.post.alive[i] ELSE LET w == want(a, i) IN
                         e.post.x[i] = w.x /\ e.post.y[i] = w.y /\ e.post.alive[i] = w.alive /\ e.post.active[i] = w.active
           hcell(i) == Depth(G, Round(e.pre.x[i]), Round(e.pre.y[i]))          \* the cell occupied when the step began
           dz(i) == DispZ(e, i, xw(i))
@@ -50,10 +51,10 @@ TStep ==
                     Check("diff.deterministic_when_off", (S.s16 = 0 /\ S.sz16 = 0) => Len(e.draws) = 0),
                     Check("diff.standard_normal", \A k \in 1..Len(e.calls) : e.calls[k].std),
                     Check("diff.horizontal", (shape /\ enough) => (hfit(1) \/ hfit(2))),
-                    Check("vert.reflect", (shape /\ enough /\ VertOn) => \A i \in 1..n : e.post.z[i] = Reflect(e.pre.z[i], dz(i), hcell(i))),
+                    Check("vert.reflect", (shape /\ enough /\ VertOn) => \A i \in 1..n : e.pre.alive[i] => e.post.z[i] = Reflect(e.pre.z[i], dz(i), hcell(i))),
                     Check("vert.in_column", (shape /\ enough /\ VertOn) => \A i \in 1..n :
-                             (Abs(dz(i)) < hcell(i) /\ e.pre.z[i] >= 0 /\ e.pre.z[i] <= hcell(i)) => (e.post.z[i] >= 0 /\ e.post.z[i] <= hcell(i))),
-                    Check("vert.unchanged_when_off", (shape /\ ~VertOn) => \A i \in 1..n : e.post.z[i] = e.pre.z[i]),
+                             (e.pre.alive[i] /\ Abs(dz(i)) < hcell(i) /\ e.pre.z[i] >= 0 /\ e.pre.z[i] <= hcell(i)) => (e.post.z[i] >= 0 /\ e.post.z[i] <= hcell(i))),
+                    Check("vert.unchanged_when_off", (shape /\ ~VertOn) => \A i \in 1..n : e.pre.alive[i] => e.post.z[i] = e.pre.z[i]),
                     Check("track.alive_in_water", shape => \A i \in 1..n : Safe(G, P(e.post, i)))>>))
       \* vacuity control of the outcome clauses: how many particles left the grid / were held back at the coast in this step
          /\ IF shape /\ enough
